@@ -19,18 +19,23 @@ META = dict(
               "stop requests from a second thread at PRNG-chosen moments + ThreadSanitizer",
     level_text="PARTIAL. Proved for every instantiation of the work between two polls: a stop request before any micro-step makes the "
                "skeleton return unknown or exactly the answer of the undisturbed run (stop_answer_safe, check_stop_answer_safe), with "
-               "the closed form `unknown iff the request is visible before the last poll` (stop_prediction); relative to sound inner "
-               "steps (hypotheses naming C01/C02) any behaviour of the flag gives unknown or the truth and leaves the frame "
-               "bookkeeping untouched and the state good after an unknown (stop_answer_correct, stop_then_state_consistent). The "
-               "lookahead loop does not read the flag (lookahead_ignores_stop: recorded liveness gap, allowed by the property). "
-               "Not proved: real interleavings and the C++ memory model - runtime behaviour a Gallina model cannot exhibit; the flag "
-               "as a memory location is modelled only as 'conflicting unordered accesses to a non-atomic object' (c25_flag_discipline, "
-               "stated over the declared types regenerated from the source).",
-    level_note="Today both flags are plain bool (atomic = false): the `else` branch of c25_flag_discipline (a racy trace exists) is what "
-               "is proved and the check reports the race ThreadSanitizer exhibits as a finding. Trusted: Coq kernel, extraction, "
-               "ocaml/conc_driver.ml, translate/stop_flag.py (pattern recognition), harness/h_stop.cc, ThreadSanitizer, z3 (oracle for "
-               "the reference answers, notes only). Timing-based requests explore the moments the scheduler happens to give; with the "
-               "proposed counter hook (proposed_hooks/C25_stop_counter.diff) the moment is exact and compared with the model.",
+               "the closed form `unknown iff the request is visible before the last poll` (stop_prediction). The state AFTER an "
+               "interrupted call (c25_state_after_stop) is stated over a constant regenerated from search(): when the conflict found by "
+               "propagate() is handled before the poll, then relative to sound inner steps (hypotheses naming C01/C02) any behaviour of "
+               "the flag gives unknown or the truth, leaves the frame bookkeeping untouched and the state good "
+               "(stop_answer_correct, stop_then_state_consistent); when the poll comes first, a sound instantiation exists for which "
+               "the next check-sat answers sat on an unsatisfiable problem. The lookahead loop does not read the flag "
+               "(lookahead_ignores_stop: recorded liveness gap, allowed by the property). Not proved: real interleavings and the C++ "
+               "memory model - runtime behaviour a Gallina model cannot exhibit; the flag as a memory location is modelled only as "
+               "'conflicting unordered accesses to a non-atomic object' (c25_flag_discipline, over the declared types regenerated "
+               "from the source).",
+    level_note="Today search() polls between propagate() returning a conflict and its handling (poll_after_conflict = true) and both "
+               "flags are plain bool (atomic = false): the refutation branches of c25_state_after_stop and c25_flag_discipline are what "
+               "is proved, and the check reports what it exhibits on the implementation as findings (a deterministic wrong `sat` after "
+               "a stop on corpus/C25; the ThreadSanitizer race). Trusted: Coq kernel, extraction, ocaml/conc_driver.ml, "
+               "translate/stop_flag.py (pattern recognition), harness/h_stop.cc, the poll-counter hook in okContinue (add-only, raises "
+               "the flag from the polling thread), ThreadSanitizer, z3 (oracle for the reference answers, notes only). Timing-based "
+               "requests explore the moments the scheduler happens to give; hook-based requests are exact and compared with the model.",
     design_ref="DESIGN.md §7 C25, design/C25.md",
     trusted_base=["Coq 8.16.1 kernel; vm_compute in the examples and race_plain_flag",
                   "extraction: Require Import ExtrOcamlBasic ExtrOcamlString; no Extract Constant / Extract Inductive of our own",
@@ -90,6 +95,13 @@ def make_instances(ctx):
     for _ in range(nr):
         cands += [("rnd-arith-big", conclib.arith_big(rng, rng.choice(["QF_LRA", "QF_LIA"]))), ("rnd-uf", conclib.uf_random(rng)),
                   ("rnd-lia-cuts", conclib.lia_cuts(rng)), ("trivial", conclib.trivial(rng))]
+    corpus = []
+    cdir = os.path.join(vlib.VERIF, "corpus", "C25")
+    if os.path.isdir(cdir):
+        for f in sorted(os.listdir(cdir)):
+            if f.endswith(".smt2"):
+                corpus.append(("corpus-" + f[:-5], open(os.path.join(cdir, f)).read()))
+    cands = corpus + cands
     out = []
     for fam, t in cands:
         t0 = time.time()
@@ -137,12 +149,13 @@ def run(ctx):
             ev.append(ctx.rng.choice(["i-", "i-", "i-", "iF"]))
             if ev[-1] == "i-":
                 for _i in range(ctx.rng.randint(0, 5)):
-                    ev.append("r-")
-                ev.append(ctx.rng.choice(["rU", "rU", "rT", "rF"]))
+                    ev += [ctx.rng.choice(["p-", "p-", "p+"]), "r-"]
+                c = ctx.rng.choice(["p-", "p-", "p+"])
+                ev += [c, ctx.rng.choice(["rU", "rU", "rT", "rF"] if c == "p-" else ["rF", "r-", "rU"])]
             if ev[-1] in ("iF", "rT", "rF"):
                 break
         else:
-            ev += ["i-", ctx.rng.choice(["rT", "rF"])]
+            ev += ["i-", "p-", ctx.rng.choice(["rT", "rF"])]
         n = ctx.rng.randint(0, 14)
         reqs += ["stop %s -1 %s" % (ds, " ".join(ev)), "stop %s %d %s" % (ds, n, " ".join(ev))]
         meta.append((ds, n, ev))
@@ -219,6 +232,8 @@ def run(ctx):
                 pts = {0, 1, 2, max(0, n0 - 2), max(0, n0 - 1), n0, n0 + 1} | {ctx.rng.randrange(n0 + 3) for _ in range(6 if ctx.quick else 14)}
                 for n in sorted(pts):
                     ptr.append((k, "poll", ctx.rng.choice(["local", "global"]), n))
+                if n0 > 0:      # the request lands on the last poll and is reset: the next check-sat must still be right
+                    ptr.append((k, "poll", "global", n0 - 1))
             ptr += [(k, "none", "-", 0) for k in range(len(insts))]
             pres = run_trials(ctx, h, paths, ptr, insts)
             if pres is not None:
@@ -377,10 +392,17 @@ def judge(ctx, insts, trials, res, atomic, paths):
                 t[2], t[1], t[3], r["r1"], ref, it["z3"]), rep)
         elif r["r1"] not in ("sat", "unsat", "unknown"):
             ctx.violation("stop:error:%s" % it["family"], "check() with a %s stop request (%s %d) returned %s" % (t[2], t[1], t[3], r["r1"]), rep)
-        if r["m1"] == "bad" or r["m2"] == "bad":
+        lost = ref == "unsat" and r["r1"] == "unknown" and r["r2"] == "sat"
+        if (r["m1"] == "bad" or r["m2"] == "bad") and not lost:
             ctx.violation("stop:bad-model:%s" % it["family"], "model after a stop request does not satisfy the assertions (%s)" % (r,), rep)
         # state consistency: the next check-sat (no new request; a global request has been reset)
-        if r["r2"] in ("sat", "unsat") and r["r2"] != ref:
+        if lost and _tr.get("ok") and _tr.get("poll_after_conflict"):
+            ctx.violation("stop:lost-conflict:%s" % it["family"],
+                          "unsatisfiable instance (%s; z3: %s): check() with a %s stop request (%s %d) answered unknown, the request was reset, and the "
+                          "NEXT check() answered sat (model %s) - the search was interrupted on the poll right after propagate() had found the "
+                          "level-0 conflict and cancelUntil(0) forgot it; model: c25_state_after_stop / stop_state_refuted" % (
+                              it["family"], it["z3"], t[2], t[1], t[3], r["m2"]), rep)
+        elif r["r2"] in ("sat", "unsat") and r["r2"] != ref:
             ctx.violation("stop:wrong-second-answer:%s" % it["family"], "after %s from a stopped check(), the next check() answered %s; the answer is %s" % (
                 r["r1"], r["r2"], ref), rep)
         elif r["r2"] not in ("sat", "unsat", "unknown"):
